@@ -573,8 +573,22 @@ def parse_block(lines):
     return spec_text, out
 
 
+def expand_includes(path, depth=0):
+    """textual include of other template fragments (which may contain directives themselves)"""
+    if depth > 5:
+        raise ExtractError("include depth")
+    out = []
+    for ln in open(path).read().split("\n"):
+        m = re.match(r"^\s*//@include\s+(\S+)", ln)
+        if m:
+            out += expand_includes(os.path.join(os.path.dirname(path), m.group(1)), depth + 1)
+        else:
+            out.append(ln)
+    return out
+
+
 def process(template_path, repo, meta):
-    tmpl = open(template_path).read().split("\n")
+    tmpl = expand_includes(template_path)
     out = []
     sources = {}
     i = 0
@@ -599,11 +613,6 @@ def process(template_path, repo, meta):
             continue
         m = re.match(r"^\s*//@(fn|struct)\s+(.*)$", ln)
         if not m:
-            if re.match(r"^\s*//@include\s+(\S+)", ln):
-                inc = re.match(r"^\s*//@include\s+(\S+)", ln).group(1)
-                out.append(open(os.path.join(os.path.dirname(template_path), inc)).read())
-                i += 1
-                continue
             out.append(ln)
             i += 1
             continue
